@@ -244,7 +244,7 @@ pub fn mk_runner(seed: u64, id: &str, shard: u64, cases: u32) -> TestRunner {
     let cfg = Config {
         cases,
         failure_persistence: None,
-        max_shrink_iters: 4000,
+        max_shrink_iters: 20000,
         max_global_rejects: 1 << 20,
         ..Config::default()
     };
@@ -420,7 +420,7 @@ pub fn stats_to_json(st: &Stats) -> Value {
 }
 
 /// Finish a check: print findings / violations, write evidence, return exit code.
-pub fn finish(ctx: &Ctx, rep: Report, wall_s: f64) -> i32 {
+pub fn finish(ctx: &Ctx, rep: Report, wall_s: f64, other: Option<(i32, Option<Value>)>) -> i32 {
     let st = &rep.stats;
     let findings = Findings::load();
     let mut exit = 0;
@@ -473,6 +473,42 @@ pub fn finish(ctx: &Ctx, rep: Report, wall_s: f64) -> i32 {
     for (k, v) in &st.extra {
         coverage.insert(k.clone(), v.clone());
     }
+    let mut evaluations_total = st.evaluations;
+    let mut violations_total = st.failures.len() as u64;
+    if let Some((code, part)) = &other {
+        // second build profile of the same check (run as a child process)
+        match part {
+            Some(p) => {
+                evaluations_total += p["coverage"]["evaluations"].as_u64().unwrap_or(0);
+                violations_total += p["violations"].as_u64().unwrap_or(0);
+                coverage.insert("other_profile".into(), json!({
+                    "profile": p["coverage"]["profile"], "exit": code,
+                    "evaluations": p["coverage"]["evaluations"], "distinct_nontrivial": p["coverage"]["distinct_nontrivial"],
+                    "classes": p["coverage"]["classes"], "known_findings_excluded": p["coverage"]["known_findings_excluded"],
+                    "violations": p["violations"], "wall_s": p["wall_s"],
+                }));
+            }
+            None => {
+                coverage.insert("other_profile".into(), json!({"exit": code, "error": "no result file"}));
+            }
+        }
+        match *code {
+            0 => {}
+            1 => {
+                if exit == 0 {
+                    exit = 1
+                }
+            }
+            _ => {
+                println!("INFRA property={} the other-profile run exited with status {}", ctx.id, code);
+                if exit == 0 {
+                    exit = 2
+                }
+            }
+        }
+        coverage.insert("evaluations".into(), json!(evaluations_total));
+        coverage.insert("evaluations_this_profile".into(), json!(st.evaluations));
+    }
     let ev = json!({
         "property_id": ctx.id,
         "tier": ctx.tier.name(),
@@ -481,7 +517,7 @@ pub fn finish(ctx: &Ctx, rep: Report, wall_s: f64) -> i32 {
         "coverage": Value::Object(coverage),
         "assumptions": rep.assumptions,
         "wall_s": wall_s,
-        "violations": st.failures.len(),
+        "violations": violations_total,
     });
     if ctx.part.is_none() {
         let dir = format!("{VERIF_DIR}/evidence");
@@ -524,4 +560,31 @@ pub fn pick(i: u16, len: usize) -> usize {
         return 0;
     }
     ((i as usize) * len) >> 16
+}
+
+/// Checks that quantify over build configurations run in both profiles: the
+/// release binary runs its own part and then the dev binary as a child.
+pub fn run_other_profile(ctx: &Ctx) -> Option<(i32, Option<Value>)> {
+    if ctx.part.is_some() {
+        return None;
+    }
+    let bin = if cfg!(debug_assertions) { std::env::var("FFV_REL_BIN") } else { std::env::var("FFV_DEV_BIN") };
+    let bin = bin.unwrap_or_else(|_| if cfg!(debug_assertions) { format!("{VERIF_DIR}/harness/target/release/ffv") } else { format!("{VERIF_DIR}/harness/target/debug/ffv") });
+    let scratch = std::env::var("FFV_SCRATCH").unwrap_or_else(|_| format!("{VERIF_DIR}/harness/target/scratch"));
+    let _ = std::fs::create_dir_all(&scratch);
+    let part = format!("{scratch}/part-{}-{}.json", ctx.id, std::process::id());
+    let _ = std::fs::remove_file(&part);
+    let status = std::process::Command::new(&bin)
+        .args(["check", &ctx.id, "--tier", ctx.tier.name(), "--seed", &ctx.seed.to_string(), "--part", &part])
+        .status();
+    let code = match status {
+        Ok(s) => s.code().unwrap_or(2),
+        Err(e) => {
+            println!("INFRA cannot run {bin}: {e}");
+            return Some((2, None));
+        }
+    };
+    let v = std::fs::read_to_string(&part).ok().and_then(|t| serde_json::from_str(&t).ok());
+    let _ = std::fs::remove_file(&part);
+    Some((code, v))
 }
